@@ -296,6 +296,8 @@ class Exec:
             r = L.roll(xs[0], s["shift"], axis=s["axis"], **kw)
         elif f == "diag":
             r = L.einsum("ii->i", xs[0], **kw)
+        elif f == "atleast":
+            r = getattr(L, f"atleast_{s['nd']}d")(xs[0], **kw)
         elif f in ("leaky_relu", "hard_tanh", "soft_sign", "clip"):
             r = _activation(self.be, f, xs[0], s, kw)
         elif f in ("cumsum", "cumprod"):
